@@ -8,7 +8,7 @@
    Hours since midnight, prices and powers are exact rationals.
 
    Translated pieces (Gen/TariffK_Z.v, Gen/TariffK_Q.v, regenerated on every run) are *called* here:
-   Tariff_valid, Tariff_wraps, Tariff_step_time, Iface_price_start, Iface_demand_start,
+   Tariff_valid, Tariff_wraps, Tariff_wrap_copy_start, Tariff_wrap_orig_end, Tariff_mask_*, Tariff_step_time, Iface_price_start, Iface_demand_start,
    Tariff_target_hour, Tariff_bp_test, Analysis_energy_cost, Analysis_demand_charge. *)
 From Coq Require Import ZArith QArith Qminmax List Bool String.
 From ACN Require Import Base.Num Base.Lex Base.Sort Base.Calendar Base.TariffRaw
@@ -26,9 +26,9 @@ Record sched := {
   s_demand : Q
 }.
 
-Definition weekdays_mask := [true; true; true; true; true; false; false].
-Definition weekends_mask := [false; false; false; false; false; true; true].
-Definition all_mask := [true; true; true; true; true; true; true].
+Definition weekdays_mask : list bool := Tariff_mask_weekdays 0.     (* [True] * 5 + [False] * 2, translated *)
+Definition weekends_mask : list bool := Tariff_mask_weekends 0.
+Definition all_mask : list bool := Tariff_mask_all 0.
 
 Definition mask_of (s : string) : res (list bool) :=
   if String.eqb s "WEEKDAYS" then Ok weekdays_mask
@@ -82,8 +82,8 @@ Definition set_end (s : sched) (v : list Z) : sched :=
 
 (* for s in schedule: if s.end < s.start: copy with start (1,1) is appended, s.end = (12,31) *)
 Definition split_wrap (l : list sched) : list sched :=
-  map (fun s => if wraps s then set_end s [12; 31]%Z else s) l
-  ++ flat_map (fun s => if wraps s then [set_start s [1; 1]%Z] else []) l.
+  map (fun s => if wraps s then set_end s (Tariff_wrap_orig_end 0 0) else s) l
+  ++ flat_map (fun s => if wraps s then [set_start s (Tariff_wrap_copy_start 0 0)] else []) l.
 
 Definition start_leb (a b : sched) : bool := lex_leb (s_start a) (s_start b).
 
